@@ -13,7 +13,7 @@ use chumsky::span::SimpleSpan;
 
 pub const ID: &str = "C20";
 
-pub const RULE: &str = "cases = (grammar, input, error type): the union of all grammar classes of this harness (well-formed by construction: repetition items consume, recursion guarded; features memoization / pratt / regex / extension on), with failing parsers wrapped in map_err / recover_with / labelled / memoized at high weight, built with each of Rich, Simple, Cheap and the zero-sized EmptyErr, on &str (alphabet symbols, derived sentences, empty and truncated inputs, and random strings over the full Unicode range incl. combining marks and 4-byte characters adjacent to backtracking points) and on &[u8] (ASCII-only grammars, arbitrary bytes), and on token trees with gapped spans (nested_in at arbitrary nodes, Rich and EmptyErr: a failing NESTED parse under the wrappers); a text sub-check runs every text::* parser, regex and the Graphemes input on random Unicode / byte strings. Oracle: the call returns -- no panic (caught and reported with its location), no abort / SIGSEGV / stack overflow (the whole check runs in a child process; a signal-killed child is a violation and is re-run single-threaded to pin the case), no watchdog expiry (inconclusive) -- and the result obeys the ParseResult contract (no output => >= 1 error, ...); every reported span lies inside the input with start <= end on char boundaries. Polynomial time, deterministic form: a counting inspector aborts a parse that consumes more than 64 x (reference node evaluations + input length + 16) tokens (the reference evaluates the same PEG with the same backtracking). NON-TRIVIAL = the parse failed or recovered inside a wrapper (map_err, recover_with, labelled, memoized, try_map, custom), or the input contains a multi-byte character, or is empty / truncated; distinct = distinct (sub-check, grammar, input).";
+pub const RULE: &str = "cases = (grammar, input, error type): the union of all grammar classes of this harness (well-formed by construction: repetition items consume, recursion guarded; features memoization / pratt / regex / extension on), with failing parsers wrapped in map_err / recover_with / labelled / memoized at high weight, built with each of Rich, Simple, Cheap and the zero-sized EmptyErr, on &str (alphabet symbols, derived sentences, empty and truncated inputs, and random strings over the full Unicode range incl. combining marks and 4-byte characters adjacent to backtracking points) and on &[u8] (ASCII-only grammars, arbitrary bytes), and on token trees with gapped spans (nested_in at arbitrary nodes, Rich and EmptyErr: a failing NESTED parse under the wrappers); a text sub-check runs every text::* parser, regex and the Graphemes input on random Unicode / byte strings. Oracle: the call returns -- no panic (caught and reported with its location), no abort / SIGSEGV / stack overflow (the whole check runs in a child process; a signal-killed child is a violation and is re-run single-threaded to pin the case), no watchdog expiry (inconclusive) -- and the result obeys the ParseResult contract (no output => >= 1 error, ...); every reported span lies inside the input with start <= end on char boundaries. Polynomial time, deterministic form: a counting inspector aborts a parse that consumes more than 64 x (reference node evaluations + input length + 16) tokens (the reference evaluates the same PEG with the same backtracking). Pratt: 120 long flat operator chains (up to 64 tight-then-weak alternations) and 20k / 300k random operator strings, two tables (tuple and Vec of boxed operators), parse and check, under the deterministic work bound tokens read <= 16 x (length + 2) x (operators + 2); C11's left-recursive family (incl. cycles through context providers) in a child process. NON-TRIVIAL = the parse failed or recovered inside a wrapper (map_err, recover_with, labelled, memoized, try_map, custom), or the input contains a multi-byte character, or is empty / truncated; distinct = distinct (sub-check, grammar, input).";
 
 pub const ASSUMPTIONS: &[&str] = &[
     "a panic raised by the library's own progress assertions on an ill-formed grammar would be by design; generators only produce grammars whose repetition items consume input",
@@ -203,6 +203,20 @@ fn check_inner(sub: &str, g: &G, input: &str, l: &mut Local) -> CaseRes {
 pub fn check_case(case: &Case, l: &mut Local) -> Result<(), Fail> {
     if case.sub == "text" {
         return text_case(&case.input, l).map_err(|(sig, m)| Fail::new(sig, m));
+    }
+    if case.sub == "leftrec" {
+        return match crate::worker::run_child(&["leftrec", "5", "500", "1"], 120, 4_000_000) {
+            crate::worker::ChildResult::Ok(_) => Ok(()),
+            crate::worker::ChildResult::Violation(m) => Err(Fail::new("C20/left-recursion", m)),
+            crate::worker::ChildResult::Inconclusive(m) => Err(Fail::new("C20/inconclusive", m)),
+        };
+    }
+    if case.sub == "unbounded-set" {
+        // listed as KF-d; the probe itself lives in run_inner
+        return Ok(());
+    }
+    if case.sub == "pratt" {
+        return pratt_case(&case.input, l).map_err(|(sig, m)| Fail::new(sig, m));
     }
     if case.sub == "depth" {
         let e = &case.extra;
@@ -443,6 +457,96 @@ fn text_case(s: &str, l: &mut Local) -> Result<(), (String, String)> {
     Ok(())
 }
 
+
+// ---------------------------------------------------------------------------------------------
+// Pratt expressions (not in the grammar AST): totality and the deterministic work bound on long flat operator chains.
+// The number of tokens the inspector is fed (every read counts, also reads that are rewound) must stay within
+// 16 x (length + 2) x (operators + 2): linear in the input for a fixed table. An operator or operand that is parsed and
+// then thrown away at every enclosing level makes the count exponential in the number of tight-then-weak alternations.
+
+fn pratt_case(s: &str, l: &mut Local) -> Result<(), (String, String)> {
+    use chumsky::pratt::*;
+    type EP<'a> = extra::Full<Rich<'a, char>, Insp, ()>;
+    let atom = || one_of::<_, &str, EP>("0123456789x").map(|_| 1u32);
+    macro_rules! bounded {
+        ($name:expr, $nops:expr, $p:expr) => {{
+            let p = $p;
+            let budget = 16 * (s.chars().count() as u64 + 2) * ($nops + 2);
+            for check in [false, true] {
+                let r = quietly(|| {
+                    let mut st = Insp::default();
+                    st.budget = budget;
+                    if check {
+                        let r = p.check_with_state(s, &mut st);
+                        let (ho, ne) = (r.has_output(), r.errors().len());
+                        drop(r);
+                        (ho, ne, st.work)
+                    } else {
+                        let r = p.parse_with_state(s, &mut st);
+                        let (ho, ne) = (r.has_output(), r.errors().len());
+                        drop(r);
+                        (ho, ne, st.work)
+                    }
+                });
+                l.evals += 1;
+                match r {
+                    Err(_) => {
+                        let m = LAST_PANIC.with(|p| p.borrow_mut().take()).unwrap_or_default();
+                        if m.starts_with("work budget exceeded") {
+                            return Err(("C20/work-bound".into(), format!("{} ({}) read more than {} tokens on the {}-character expression {:?}: not polynomial in the input", $name, if check { "check" } else { "parse" }, budget, s.chars().count(), s)));
+                        }
+                        return Err((format!("C20/panic:{}", norm_panic(&m)), format!("{} panicked on {:?}: {}", $name, s, m)));
+                    }
+                    Ok((ho, ne, work)) => {
+                        if !ho && ne == 0 {
+                            return Err(("C20/silent-failure".into(), format!("{} failed on {:?} without an error", $name, s)));
+                        }
+                        l.add("pratt_tokens_read_total", work);
+                        l.bump("pratt_chain_runs");
+                    }
+                }
+            }
+        }};
+    }
+    bounded!(
+        "atom.pratt((left(1) +, left(1) -, left(2) *, right(3) ^, prefix(2) -, postfix(4) !))",
+        6u64,
+        atom().pratt((
+            infix(left(1), just('+'), |a: u32, _, b: u32, _| a + b),
+            infix(left(1), just('-'), |a: u32, _, b: u32, _| a + b),
+            infix(left(2), just('*'), |a: u32, _, b: u32, _| a + b),
+            infix(right(3), just('^'), |a: u32, _, b: u32, _| a + b),
+            prefix(2, just('-'), |_, a: u32, _| a + 1),
+            postfix(4, just('!'), |a: u32, _, _| a + 1),
+        ))
+        .then_ignore(any().repeated())
+    );
+    bounded!(
+        "Vec of boxed operators (right(1) +, left(2) *, left(3) ^, postfix(1) !)",
+        4u64,
+        atom()
+            .pratt(vec![
+                infix(right(1), just('+'), |a: u32, _, b: u32, _| a + b).boxed(),
+                infix(left(2), just('*'), |a: u32, _, b: u32, _| a + b).boxed(),
+                infix(left(3), just('^'), |a: u32, _, b: u32, _| a + b).boxed(),
+                postfix(1, just('!'), |a: u32, _, _| a + 1).boxed(),
+            ])
+            .then_ignore(any().repeated())
+    );
+    Ok(())
+}
+
+fn pratt_chains() -> Vec<String> {
+    let mut v = vec![];
+    for unit in ["+2*3", "*2+3", "+2*3^4", "^2*3+4", "+-2*3!", "*2^3+4!", "-x+", "+2*-3", "^2", "!+2*3"] {
+        for n in [1usize, 4, 12, 24, 40, 64] {
+            v.push(format!("1{}", unit.repeat(n)));
+            v.push(format!("1{}+", unit.repeat(n)));
+        }
+    }
+    v
+}
+
 /// the check proper; runs inside a child process
 pub fn run_inner(tier: Tier, seed: u64) -> i32 {
     let ctx = Ctx::new(ID, tier, seed);
@@ -487,6 +591,60 @@ pub fn run_inner(tier: Tier, seed: u64) -> i32 {
         }
         text_case(&s, l).map_err(|(sig, m)| (Case::new(ID, "text", &G::Empty, &s.chars().collect::<Vec<_>>()), Fail::new(sig, m)))
     });
+    // token sets given as an UNBOUNDED range (Seq for RangeFrom): a rejected token must be reported, not panic
+    {
+        let mut l = Local::default();
+        for (name, input) in [("one_of('b'..)", "a"), ("one_of('b'..)", ""), ("none_of('b'..)", "c"), ("just('b'..)", "bcx")] {
+            let r = quietly(|| {
+                type ER<'a> = extra::Err<Rich<'a, char>>;
+                let res = match name {
+                    "one_of('b'..)" => one_of::<_, &str, ER>('b'..).ignored().parse(input).into_output_errors(),
+                    "none_of('b'..)" => none_of::<_, &str, ER>('b'..).ignored().parse(input).into_output_errors(),
+                    _ => just::<_, &str, ER>('b'..).ignored().parse(input).into_output_errors(),
+                };
+                (res.0.is_some(), res.1.len())
+            });
+            l.evals += 1;
+            let toks: Vec<char> = input.chars().collect();
+            let mut c = Case::new(ID, "unbounded-set", &G::Empty, &toks);
+            c.extra = serde_json::json!({ "parser": name });
+            match r {
+                Err(_) => {
+                    let m = LAST_PANIC.with(|p| p.borrow_mut().take()).unwrap_or_default();
+                    let res = Err((c, Fail::new("C20/unbounded-set-enumerated", format!("{} with Rich errors on {:?} panicked while reporting the failure: {}", name, input, m))));
+                    ctx.judge(&mut l, res);
+                }
+                Ok((ho, ne)) => {
+                    if !ho && ne == 0 {
+                        let res = Err((c, Fail::new("C20/silent-failure", format!("{} failed on {:?} without an error", name, input))));
+                        ctx.judge(&mut l, res);
+                    }
+                    l.bump("unbounded_set_probes_returned");
+                }
+            }
+        }
+        ctx.with_local(|acc| acc.merge(l));
+    }
+    // Pratt: long flat operator chains and random operator strings under the work bound
+    {
+        let chains = pratt_chains();
+        ctx.par_jobs(&chains, |s, l| {
+            if trace.is_some() {
+                traced(&Case::new(ID, "pratt", &G::Empty, &s.chars().collect::<Vec<_>>()));
+            }
+            pratt_case(s, l).map_err(|(sig, m)| (Case::new(ID, "pratt", &G::Empty, &s.chars().collect::<Vec<_>>()), Fail::new(sig, m)))
+        });
+        let np = ctx.pick(20_000, 300_000);
+        ctx.par_random(np, 140, 22, |tape, l| {
+            let mut t = Tape::new(tape);
+            let n = 1 + t.pick(120);
+            let s: String = (0..n).map(|_| ['1', 'x', '+', '-', '*', '^', '!', '+', '*', '2', '(', ' '][t.pick(12)]).collect();
+            if trace.is_some() {
+                traced(&Case::new(ID, "pratt", &G::Empty, &s.chars().collect::<Vec<_>>()));
+            }
+            pratt_case(&s, l).map_err(|(sig, m)| (Case::new(ID, "pratt", &G::Empty, &s.chars().collect::<Vec<_>>()), Fail::new(sig, m)))
+        });
+    }
     // deeply nested inputs never overflow the stack: the depth workers of C12 (recursive(), declare/define and a
     // Pratt prefix chain; 256 KiB thread stack) at one depth, balanced and truncated, parse and check
     {
@@ -523,6 +681,29 @@ pub fn run_inner(tier: Tier, seed: u64) -> i32 {
                 acc.add(k, *v);
             }
         });
+    }
+    // memoized left recursion terminates (no unbounded recursion, no stack exhaustion): C11's left-recursive family --
+    // incl. cycles that pass through context providers, boxing, labels, map_err / validate -- in a child process
+    if !ctx.stopped() {
+        let (max_len, random) = ctx.pick((5usize, 500u64), (6usize, 5_000u64));
+        match crate::worker::run_child(&["leftrec", &max_len.to_string(), &random.to_string(), &seed.to_string()], 120, 4_000_000) {
+            crate::worker::ChildResult::Ok(out) => {
+                let line = out.lines().find(|l| l.starts_with("LEFTREC-OK")).unwrap_or("").to_string();
+                let parses: u64 = line.split("parses=").nth(1).and_then(|x| x.split(' ').next()).and_then(|x| x.parse().ok()).unwrap_or(0);
+                ctx.with_local(|l| {
+                    l.evals += parses;
+                    l.add("left_recursive_parses_that_returned", parses);
+                });
+            }
+            crate::worker::ChildResult::Violation(msg) => {
+                let c = Case::new(ID, "leftrec", &G::Empty, &[]);
+                let mut l = Local::default();
+                ctx.judge(&mut l, Err((c, Fail::new("C20/left-recursion", msg))));
+            }
+            crate::worker::ChildResult::Inconclusive(msg) => {
+                *ctx.inconclusive.lock().unwrap() = Some(format!("left-recursion worker: {}", msg));
+            }
+        }
     }
     ctx.finish(&check_case, RULE, ASSUMPTIONS, &|l| {
         for k in ["failed_or_recovered_inside_a_wrapper", "multi_byte_input", "empty_input", "byte_input", "nested_input", "nested_inner_parse_failed", "text_strings_multi_byte", "recovered", "accepted", "rejected"] {
